@@ -175,7 +175,7 @@ package persistence
 //@ func (persistence).SaveFanPwmMap
 //@   props C14
 //@   requires dbWF()
-//@   ensures[C14.savemap.has]  err == nil ==> dbHas["fanPwmMap"][fanId] && othersSame("fanPwmMap", fanId)
+//@   ensures[C14.savemap.has C15]  err == nil ==> dbHas["fanPwmMap"][fanId] && othersSame("fanPwmMap", fanId)
 //@   ensures[C14.savemap.val]  err == nil ==> (dbVal["fanPwmMap"][fanId] in jsonOkI) && encI(dbVal["fanPwmMap"][fanId], pwmMap)
 //@   ensures[C14.savemap.atomic] err != nil ==> dbHas == old(dbHas) && dbVal == old(dbVal) && dbBucket == old(dbBucket)
 //@   ensures[C14.savemap.arg] mapdom(pwmMap) == old(mapdom(pwmMap)) && mapval(pwmMap) == old(mapval(pwmMap))
